@@ -15,7 +15,7 @@ LEVEL = 'exploration'
 TECHNIQUE = 'runtime monitoring: unique-marker write histories checked against an independent winner table (priority, then stage order); metadata read from the surviving nodes'
 LEVEL_TEXT = ('Held on the generated histories only: 2-6 stages write random sub-schemas of a common mapping skeleton (depth<=5); leaves are '
               'unique scalar markers or lists of them; !force/!weak sit on leaves or on enclosing containers at any height including the root; '
-              'user metadata with per-writer keys and one shared key. The merged data must equal the winner table and no metadata key may be lost.')
+              'user metadata with per-writer keys and one shared key. The merged data must equal the winner table and no metadata key may be lost; plus one model-free relation: an untagged leaf added below a !weak container survives a later !weak scalar aimed at the container.')
 LEVEL_NOTE = ('Trusted: winner table in model.py. Restrictions where the statement is silent: no priority tag below a differently tagged container of the '
               'same document, no shape conflict between stages at a path, no priority tags on elements inside lists, value of a metadata key '
               'written only by losing stages is not checked (presence is).')
